@@ -47,11 +47,16 @@ Lemma wf_walk_iso P l r :
   (forall a o, heap_of l a = Some o -> p_late P (p_cmap P (ocls o)) = None) ->
   (forall a o, heap_of l a = Some o -> p_cmap P (ocls o) = ocls o) ->
   wf_heap l r = true ->
-  exists d s', walk P (heap_of l) (S (length l)) r st0 = Some (d, s') /\ Inv P (heap_of l) s' /\ mlook r s' = Some d /\
+  exists d s', walk P (heap_of l) (S (length l)) r st0 = Some (d, s') /\
+    Inv P (heap_of l) (reach (heap_of l) r) s' /\ mlook r s' = Some d /\
     (forall x y, mlook x s' = Some y -> done P (heap_of l) s' x y) /\ iso (heap_of l) r (dst s') d.
 Proof.
   intros Hl Hc Hwf. destruct (wf_heap_closed l r Hwf) as [Hr Hcl].
-  pose proof (walk_iso P (heap_of l) (keys l) Hcl Hl Hc r Hr) as H.
+  assert (HQ : forall a, reach (heap_of l) r a -> exists o, heap_of l a = Some o /\
+             forall t ks k, In (t, ks) (oflds o) -> In k ks -> reach (heap_of l) r k).
+  { intros a Ha. destruct (Hcl a (reach_in_keys l r a Hwf Ha)) as [o [Ho _]]. exists o. split; auto.
+    intros t ks k Hf Hk. eapply reach_step; eauto. }
+  pose proof (walk_iso P (heap_of l) (keys l) (reach (heap_of l) r) HQ (fun a Ha => reach_in_keys l r a Hwf Ha) Hl Hc r (reach_root _ _)) as H.
   unfold keys in H. rewrite map_length in H. exact H.
 Qed.
 
@@ -71,7 +76,7 @@ Proof.
   rewrite E1, E2. intros H. inversion H as [[Hd Hl]]. subst d2.
   destruct (listing_eq _ _ Hl) as [Hn Hag].
   eapply iso_trans; [|apply iso_sym; exact Iso2].
-  destruct (walk_bisim Pid (heap_of l1) (fun _ _ _ => eq_refl) s1 I1 D1) as [Hb [Hf Hi]].
+  destruct (walk_bisim Pid (heap_of l1) _ (fun _ _ _ => eq_refl) s1 I1 D1) as [Hb [Hf Hi]].
   exists (krel s1). split; [exact M1|]. split; [|split; auto].
   eapply bisim_agree; [exact Hb|]. intros a b Hab. symmetry. apply Hag. destruct I1 as [J1 _]. eapply J1; eauto.
 Qed.
